@@ -330,3 +330,47 @@ pub fn silence_stderr() -> i32 {
         saved
     }
 }
+
+static SAVED_STDOUT: std::sync::atomic::AtomicI32 = std::sync::atomic::AtomicI32::new(-1);
+
+/// Simulated code may print (the repository's train_bpe hook uses println!).
+/// Point fd 1 at /dev/null and keep the real stdout for `emit`.
+pub fn silence_stdout() {
+    extern "C" {
+        fn dup(fd: i32) -> i32;
+        fn dup2(old: i32, new: i32) -> i32;
+        fn open(path: *const u8, flags: i32, ...) -> i32;
+    }
+    use std::io::Write;
+    let _ = std::io::stdout().flush();
+    unsafe {
+        let saved = dup(1);
+        let null = open(b"/dev/null\0".as_ptr(), 1);
+        if saved >= 0 && null >= 0 {
+            dup2(null, 1);
+            SAVED_STDOUT.store(saved, std::sync::atomic::Ordering::SeqCst);
+        }
+    }
+}
+
+/// Print one line of harness output to the real stdout.
+pub fn emit(line: &str) {
+    extern "C" {
+        fn write(fd: i32, buf: *const u8, n: usize) -> isize;
+    }
+    let fd = SAVED_STDOUT.load(std::sync::atomic::Ordering::SeqCst);
+    if fd < 0 {
+        println!("{line}");
+        return;
+    }
+    let mut data = line.as_bytes().to_vec();
+    data.push(b'\n');
+    let mut off = 0;
+    while off < data.len() {
+        let n = unsafe { write(fd, data[off..].as_ptr(), data.len() - off) };
+        if n <= 0 {
+            break;
+        }
+        off += n as usize;
+    }
+}
